@@ -519,6 +519,11 @@ func run(p *hx.Plan) []hx.Event {
 			}
 			err := e.mgr.StartReadCollection(e.taskCtx(), &model.DatabaseInfo{ID: 1, Name: c.DB}, c.pbInfo(), seeks, startTs)
 			ev["err"] = err != nil
+			sk := []hx.Event{}
+			for _, x := range seeks {
+				sk = append(sk, hx.Event{"ch": x.ChannelName, "ts": int(x.Timestamp)})
+			}
+			ev["seeks"] = sk
 		case "release": // let a held Register proceed
 			ev["v"] = hx.S(st, "v")
 			ev["ok"] = e.disp.ReleaseHold(hx.S(st, "v"))
